@@ -454,6 +454,41 @@ func runCheck(eng *Eng, id, tier string, replay, keep bool, only string) int {
 			}
 			cwg.Wait()
 		}
+		// a contract that pins a call down with an 'oncall' hook ("delegates exactly once to f") says nothing about what f
+		// does: the property then rests on the whole contract of f
+		delegated := map[*Task]bool{}
+		delegatesOf := func(t *Task) {
+			if t.rootCon == nil || delegated[t] {
+				return
+			}
+			delegated[t] = true
+			for _, c := range t.rootCon.Clauses {
+				if c.Kind != "oncall" {
+					continue
+				}
+				for full, cons := range eng.con.Funcs {
+					if !strings.HasSuffix(full, c.Name) {
+						continue
+					}
+					for _, con := range cons {
+						if con.Trusted || !t.contractsUsed[con.Full+caseSuffix(con)] {
+							continue
+						}
+						for _, cc := range con.Clauses {
+							if cc.Kind == "ensures" {
+								if relied[con] == nil {
+									relied[con] = map[string]bool{}
+								}
+								relied[con][cc.Src] = true
+							}
+						}
+					}
+				}
+			}
+		}
+		for _, t := range taskList {
+			delegatesOf(t)
+		}
 		coresOf(allObls)
 		ctasks := map[*FuncContract]*Task{}
 		included := map[*Obligation]bool{}
@@ -487,6 +522,7 @@ func runCheck(eng *Eng, id, tier string, replay, keep bool, only string) int {
 					gBV = false
 					ctasks[con] = ct
 					taskList = append(taskList, ct)
+					delegatesOf(ct)
 					closureFuncs = append(closureFuncs, ct.name)
 					for _, e := range ct.errs {
 						undecided = append(undecided, ct.name+": "+e)
